@@ -29,6 +29,10 @@ class Prop(common.PropertyCheck):
                    'chform': rng.choice(['name', 'pos', 'list', 'all', 'list_mixed']), 'over': rng.choice([None, None, 'T', 'M', 'W', 'W0', 'Wbig', 'Tsmall', 'TM']),
                    'dt': rng.choice(['I', 'I', 'F']), 'tinyneg': rng.random() < 0.4, 'nan': rng.random() < 0.3, 'seed': rng.randrange(1 << 30)}
         yield {'res': 1024, 'units': 'raw', 'scale': 'cubic', 'n': None, 'chform': 'name', 'over': None, 'seed': 1}
+        # explicit W = 0 (a falsy value) on floating-point samples with negative events, every channel form
+        for chf in ('name', 'list', 'all'):
+            yield {'res': rng.choice([1024, 4096]), 'units': 'raw', 'scale': 'logicle', 'n': rng.choice([None, 17]), 'chform': chf, 'over': 'W0', 'dt': 'F', 'tinyneg': False,
+                   'nan': False, 'seed': rng.randrange(1 << 30)}
         # unsupported entries inside a per-channel scale list
         for badsc in (['linear', 'Log'], ['loglog', 'linear'], ['logicle', None], ['cubic', 'cubic'], ['linear', '']):
             yield {'res': 1024, 'units': rng.choice(['raw', 'rfi']), 'scale': 'cubic', 'badlist': badsc, 'n': rng.choice([None, 8]), 'chform': 'list', 'over': None,
